@@ -16,6 +16,7 @@ import warnings
 import numpy
 
 from .core import Driver, REPO, frac, next_down, next_up
+from . import c18_tree
 
 LEVEL_TEXT = ("Proof: a field value whose kinds lie in {int, bool, float, numpy integer/bool/floating scalars, str, None, "
               "lists/tuples/arrays of these} is read back equal after json.dump(default=_json_default)/json.load, for every "
@@ -24,7 +25,15 @@ LEVEL_TEXT = ("Proof: a field value whose kinds lie in {int, bool, float, numpy 
               "class loads as the same class with all nine fields equal; an unmasked region rebuilt from its dictionary "
               "is the same region, hence indexes every point identically. Tied to the code by running all 19 public "
               "evaluation functions on generated inputs (incl. -inf, nan, None outcomes), recording the kind of every "
-              "field (the safe-set hypothesis), and comparing the real write/load with the model field by field.")
+              "field (the safe-set hypothesis), and comparing the real write/load with the model field by field. "
+              "Round 3: the value model has dictionaries (json.dump sort_keys=True: key coercion, TypeError on mixed or "
+              "non-JSON keys; json.load: str keys, last duplicate wins): safe trees of any nesting round-trip, every JSON "
+              "tree without duplicate names is a fixed point of load-then-write, every loaded value is stable; the whole "
+              "result file is one object read by load_evaluation_result (type dispatch, nine subscripts); "
+              "EvaluationConfiguration / Event / FileSystem to_dict/from_dict; CartesianGrid2D.from_dict with its error "
+              "branches in the code's order, optional magnitudes, and QuadtreeGrid2D.to_dict; an unmasked region (with or "
+              "without magnitudes) rebuilt from its dictionary indexes every point identically. All of these are compared "
+              "with the real code on every run (harness/c18_tree.py).")
 LEVEL_NOTE = ("The JSON text layer (json.dumps/loads of the value tree, float repr round trip, NaN/Infinity tokens) is "
               "trusted and re-checked on every generated value. Only objects that reach str(obj) in _json_default (an ndarray "
               "nested in a field, a datetime) are outside the safe set; no evaluation function stores one. The former defect "
@@ -36,7 +45,24 @@ THEOREMS = ["ResultJson.roundtrip_safe", "ResultJson.numpy_scalars_roundtrip_as_
             "ResultJson.loaded_is_plain", "ResultJson.roundtrip_stable", "ResultJson.safe_decidable", "ResultJson.factory_total", "ResultJson.factory_aliases",
             "ResultJson.class_preserved", "ResultJson.write_fails_iff", "ResultJson.result_roundtrip",
             "ResultJson.string_distribution_split", "ResultJson.rebuild_eq", "ResultJson.rebuild_same_index",
-            "ResultJson.rebuild_any_observable", "ResultJson.masked_region_not_preserved"]
+            "ResultJson.rebuild_any_observable", "ResultJson.masked_region_not_preserved",
+            # Properties/C18_Tree.lean — JSON value tree with dictionaries
+            "JsonTree.tree_roundtrip_safe", "JsonTree.safe_image_nodup", "JsonTree.decode_encode_fixed",
+            "JsonTree.safe_image_fixed", "JsonTree.loaded_is_plain", "JsonTree.tree_roundtrip_stable",
+            "JsonTree.tree_norm_idempotent", "JsonTree.tree_safe_decidable", "JsonTree.int_keys_come_back_as_strings",
+            "JsonTree.bool_none_keys_come_back_as_strings", "JsonTree.bad_key_raises", "JsonTree.sortable_one_class",
+            "JsonTree.mixed_keys_raise", "JsonTree.stringified_inside_dict", "JsonTree.duplicate_member_last_wins",
+            "JsonTree.embedding_consistent",
+            # Properties/C18_Records.lean — whole files, records, region dictionaries
+            "JsonTree.result_roundtrip_tree", "JsonTree.load_type_dispatch", "JsonTree.dict_distribution_keeps_keys_only",
+            "JsonTree.evalcfg_roundtrip", "JsonTree.evalcfg_new_norm", "JsonTree.evalcfg_new_invariant",
+            "JsonTree.evalcfg_missing_key", "JsonTree.evalcfg_update_then_get", "JsonTree.event_roundtrip",
+            "JsonTree.event_time_exact_iff", "JsonTree.event_microseconds_lost", "JsonTree.repo_roundtrip",
+            "JsonTree.repo_from_dict_keys", "JsonTree.region_dict_roundtrip", "JsonTree.region_file_roundtrip",
+            "JsonTree.region_same_index", "JsonTree.region_same_lattice", "JsonTree.region_magnitudes_dropped",
+            "JsonTree.region_magnitudes_optional", "JsonTree.region_from_dict_error_iff",
+            "JsonTree.region_bad_polygon_typeError", "JsonTree.region_empty_polygons_indexError",
+            "JsonTree.quadtree_dict_is_not_a_cartesian_dict", "JsonTree.quadtree_dict_file_roundtrip"]
 TRUSTED = ["Lean 4.33 kernel", "axioms: propext, Classical.choice, Quot.sound at most",
            "CPython json: dumps/loads of a tree of None/bool/int/float/str/list is the identity (float repr round trip, "
            "NaN / Infinity / -Infinity tokens); re-checked on every generated field value",
@@ -49,14 +75,27 @@ TRUSTED = ["Lean 4.33 kernel", "axioms: propext, Classical.choice, Quot.sound at
            "regions: the Lean region is the tuple (origins, dh, mask, name) with an exact-lattice index; the real "
            "cleaner_range / bin1d_vec arithmetic is property C01/C02's model. The C18 oracle compares the REAL original "
            "and rebuilt regions point by point",
-           "harness/c18.py generators and comparison; driver parsing (Proto.lean, Drive/C18.lean)"]
+           "member order of JSON objects is not modelled (dict equality ignores it; entries are compared sorted by name); "
+           "float dict keys are not modelled and not generated",
+           "epoch_time_to_utc_datetime on an integer of milliseconds is exact (C15's subject; re-checked on every generated "
+           "Event); os.path.expanduser/expandvars leave the generated urls unchanged",
+           "region dictionaries: coordinates / dh / magnitudes are float64 bit patterns; Grid.fromDict returns `unmodelled` "
+           "for non-float coordinates, ragged magnitudes and non-list iterables (not generated)",
+           "harness/c18.py, harness/c18_tree.py generators and comparison; driver parsing (Proto.lean, Drive/C18.lean, "
+           "Drive/C18b.lean)"]
 RULE = ("results: 19 evaluation functions x variants {normal, zero_rate (-inf), empty_obs (nan/None/not-valid), single "
         "(nan t-test), int_mags (numpy.int64 min_mw)} x random small grids, plus synthetic results of every class with "
         "random field values of all kinds (nested tuples, nan/inf, None, unicode, numpy scalars); regions: random "
         "unmasked lattices (holes, shuffled cell order, decimal and dyadic spacings, inferred dh) probed at cell corners, "
         "upper edges, one-ulp neighbours, midpoints and outside points, plus masked dyadic lattices (correspondence only). "
         "A case is non-trivial when a compared field holds nan/inf/None/tuple/array/nested data or a region probe lies on "
-        "a cell edge; distinct by (function, variant, field kinds and special values) or (lattice, probe set)")
+        "a cell edge; distinct by (function, variant, field kinds and special values) or (lattice, probe set). Round 3 "
+        "sub-cases (own sub_seed each): values with dicts of every key kind (str, int, bool, None, mixed, numpy, tuple, "
+        "bytes); results of every class with dict-valued fields and numpy arrays of every dtype and shape (0-d..3-d, empty) "
+        "as test_distribution; EvaluationConfiguration (falsy evaluations, removed keys, getters, update_version, re-save), "
+        "Event (sub-millisecond, negative, None times), FileSystem (unexpected / missing keys, __eq__, backup, IOError); "
+        "region dictionaries of lattices with and without magnitudes under 26 kinds of damage, directly and through a "
+        "file; quadtree dictionaries")
 
 FIELDS = ("test_distribution", "name", "observed_statistic", "quantile", "status", "obs_catalog_repr", "sim_name",
           "obs_name", "min_mw")
@@ -729,6 +768,8 @@ def flush(run, drv, pend):
     out = drv.run()
     for what, case, i, impl in pend:
         o = out[i]
+        if c18_tree.flush_one(run, what, case, o, impl):
+            continue
         if what == "tables":
             classes, factory = impl
             cl, fa = o.split(";")
@@ -835,6 +876,8 @@ def run(run, rng, tier):
             if dyadic:
                 mask = [1 if rng.random() < 0.7 else 0 for _ in origins]
                 check_region(run, drv, pend, origins, dh, mask, probes, True, False, tmp)
+        # 4. value trees with dictionaries, whole files, EvaluationConfiguration / Event / FileSystem, region dictionaries
+        c18_tree.run_all(run, drv, pend, rng, thorough, tmp)
         flush(run, drv, pend)
 
 
@@ -852,7 +895,9 @@ def replay(run, payload, _ctx=None):
 
 def _replay_one(run, drv, pend, case, tmp):
     mode = case.get("mode")
-    if mode == "eval":
+    if mode == "tree":
+        c18_tree.run_case(run, drv, pend, case["section"], case["sub_seed"], tmp)
+    elif mode == "eval":
         run_eval(run, drv, pend, case["sub_seed"], case["variant"], tmp, only=case["label"])
     elif mode == "synthetic":
         res = make_synthetic(case["cls"], case["fields"])
